@@ -348,6 +348,11 @@ def run_lines(cmd, lines, timeout=600, env=None, shards=1):
             o = txt.split("\n")
             partial = o.pop() if o else ""
             if status == "exit" and (len(o) >= len(rest) or rc == 0):
+                if partial and len(o) == len(rest) and o:
+                    # output after the last case's newline (printed while the harness cleaned up after it):
+                    # it belongs to the last case
+                    o[-1] = o[-1] + " !trailing: " + partial
+                    partial = ""
                 out += o + ([partial] if partial else [])
                 break
             o = o[:len(rest)]
